@@ -29,6 +29,10 @@ def hx(b):
     return b.hex() or '-'
 
 
+SPECIAL_NAMES = {b'Type', b'Data', b'NextNonce', b'Code', b'ContentSize', b'MessageCount', b'Validity', b'KeepAliveTime', b'TimeToLive',
+                 b'DateTime', b'DeliveryTime', b'AcceptedContentLength', b'MultiTrans', b'ParserSize', b'ServerPollMin', b'TCPPort', b'UDPPort'}
+
+
 class FlowGen:
     def __init__(self, d, rng):
         self.d, self.rng = d, rng
@@ -144,7 +148,26 @@ class FlowGen:
         xml = r.random() < 0.4
         n = r.randint(1, maxops)
         ops = []
-        if r.random() < 0.5:
+        special = [x for x in self.rows(lid, 'tags') if (x[3] & 1) or bytes.fromhex(x[0]) in SPECIAL_NAMES]
+        if special and r.random() < 0.2:
+            # content whose encoding depends on the element it is in (binary / typed / MIME-label elements):
+            # open such an element by hand, send empty elements and text through it, close it
+            p = r.choice(special)
+            self.pages_hit.add((lid, 't', p[1]))
+            pe = f'Et.{p[1]}.{p[2]}.{p[0]}()'
+            ops.append('S1' + pe)
+            for _ in range(r.randint(0, 2)):
+                k = r.random()
+                if k < 0.5:
+                    ops.append('S0' + self.node(lid, 0, elt_only=True))
+                elif k < 0.7:
+                    ops.append('N' + self.node(lid, 0, elt_only=True))
+                else:
+                    ops.append('D')
+            ops.append('N' + f'T{hx(r.choice([b"123", b"AAEC", b"20240101T120000Z", b"application/vnd.syncml-devinf+wbxml", b"hello", b" "]))}.')
+            if r.random() < 0.8:
+                ops.append('F1' + pe)
+        elif r.random() < 0.5:
             # free sequence
             for _ in range(n):
                 k = r.random()
